@@ -292,11 +292,14 @@ class Registry(asset.Registry, alias='posix'):
         release = package.manifest.version
         path = self._path.package(project, release)
         path.parent.mkdir(parents=True, exist_ok=True)
+        staged = path.with_name(f'.{path.name}.tmp')  # invisible to readers until atomically renamed
         if package.path.is_dir():
-            shutil.copytree(package.path, path, ignore=lambda *_: {'__pycache__'})
+            shutil.rmtree(staged, ignore_errors=True)
+            shutil.copytree(package.path, staged, ignore=lambda *_: {'__pycache__'})
         else:
             assert package.path.is_file(), 'Expecting file package'
-            path.write_bytes(package.path.read_bytes())
+            staged.write_bytes(package.path.read_bytes())
+        staged.rename(path)
 
     def read(
         self,
@@ -349,5 +352,7 @@ class Registry(asset.Registry, alias='posix'):
                 raise asset.Level.Invalid(f'State {sid} not staged')
             target = self._path.state(sid, project, release, generation)
             source.rename(target)
-        with path.open('wb') as tagfile:
+        staged = path.with_name(f'.{path.name}.tmp')  # invisible to readers until atomically renamed
+        with staged.open('wb') as tagfile:
             tagfile.write(tag.dumps())
+        staged.rename(path)
